@@ -116,7 +116,20 @@ func genProgram(r *rand.Rand, id int, tier string) *program {
 		p.reqTimeout = 6 * time.Second
 	}
 	x := r.Intn(100)
+	burst := id%40 == 13
 	switch {
+	case burst:
+		// a long run of rejected proposals of one version on one channel, then accepted ones: whatever a
+		// rejection leaves behind (receivers, buffers, locks) accumulates before the next success
+		p.class = "reject-burst"
+		p.nch = 1
+		n := 19 + r.Intn(6)
+		side := r.Intn(2)
+		w := worker{}
+		for i := 0; i < n+3; i++ {
+			w.steps = append(w.steps, pstep{cl: side, ch: 0, kind: "pay", amt: int64(1 + r.Intn(3))})
+		}
+		p.workers = []worker{w}
 	case x < 30:
 		p.class = "seq"
 		p.nch = 1 + r.Intn(3)
@@ -205,6 +218,13 @@ func genProgram(r *rand.Rand, id int, tier string) *program {
 		p.opener[c] = r.Intn(2)
 		for k := 0; k < 2; k++ {
 			p.script[c][k] = genDecisions(r, 3+r.Intn(5), quick)
+			if p.class == "reject-burst" {
+				n := len(p.workers[0].steps)
+				p.script[c][k] = make([]decision, n)
+				for i := n - 3; i < n; i++ {
+					p.script[c][k][i].accept = true
+				}
+			}
 			if p.class == "head-on" {
 				for i := range p.script[c][k] {
 					p.script[c][k][i].delay /= 4
